@@ -14,7 +14,8 @@
    rendering of the error payload (Model/Heap.get_as_cell: NoFuel on circular data and
    panic sites 10/13/14 on an ill-formed machine are C06's display_err_total).      *)
 From MW Require Import Model.Base Model.F64 Model.Num Model.Datum Model.TransformDef
-  Model.VmTypes Model.Heap Model.VmBase Model.ListVec Model.PreludeLists Model.ListVecSpec Proofs.ListVecProofs.
+  Model.VmTypes Model.Heap Model.VmBase Model.ListVec Model.PreludeLists Model.ListVecSpec Proofs.ListVecProofs
+  Proofs.PreludeMemProofs.
 Open Scope N_scope.
 
 (* ------------------------------------------------------------------ car cdr *)
@@ -558,26 +559,13 @@ Proof. exact apply_cons. Qed.
 Print Assumptions C14_apply_cons.
 
 (* ======================================================================== OPEN *)
-(* Statements that are NOT proved yet.  They are kept here at full strength so that
-   what is claimed above cannot be mistaken for the whole of C14; each is exercised by
-   the correspondence check and the reference-store oracle only. *)
-
-(* OPEN — NO THEOREM YET for the remaining procedures of the hand model
-   Model/PreludeLists.v (prelude.scm:159-258): memq memv member assq assv assoc map
-   for-each caar cdar cddr.  They are covered by the correspondence check (interface 40) and
-   by the reference-store oracle only.  The statement for memq/memv/member, as an example of
-   what is owed (to be proved over the generated prelude run by the VM model): *)
-Definition prelude_member_stmt : Prop :=
-  forall fuel s x l xs e,
-  values_are_refs s -> sym_interned s -> val_ok s x -> val_ok s l -> sp s < scap s ->
-  achain (abs s) (absv s l) xs e -> (forall n, In n xs -> exists k, adatum s n k /\ (2 * k + 2 < fuel)%nat) ->
-  (exists k, adatum s (absv s x) k /\ (2 * k + 2 < fuel)%nat) -> (length xs + 1 < fuel)%nat ->
-  e = AImm VNil ->
-  exists r s', MW.Model.PreludeLists.p_mem fuel (equal_b fuel) [x; l] s = ROk r s' /\ hp s' = hp s /\
-    ((forall n, In n xs -> ~ aequal s n (absv s x)) /\ absv s r = AImm (VBool false) \/
-     exists i, atail (abs s) (absv s l) i (absv s r) /\
-       (exists n, nth_error xs i = Some n /\ aequal s n (absv s x)) /\
-       (forall j n, (j < i)%nat -> nth_error xs j = Some n -> ~ aequal s n (absv s x))).
+(* Statements that are NOT proved.  What is claimed in this file cannot be mistaken for the
+   whole of C14: the remaining procedures of the hand model Model/PreludeLists.v — map,
+   for-each, caar, cdar, cddr — have NO THEOREM (correspondence check, interface 40, and the
+   reference-store oracle only); and every theorem of the hand-model section below is about the
+   HAND model of prelude.scm, to be re-established over the generated prelude run by the VM
+   model.  (memq memv member assq assv assoc: proved below, work package c19b; the former
+   [prelude_member_stmt] is now the theorem [C14_handmodel_member].) *)
 
 (* ==========================================================================
    HAND MODEL SECTION.  The theorem below is about Model/PreludeLists.v, the hand
@@ -608,6 +596,125 @@ Theorem C14_handmodel_cadr : forall fuel s o a d a2 d2,
   exists s', MW.Model.PreludeLists.p_cadr fuel [o] s = ROk (VPtr a2) s' /\ hp s' = hp s /\ st s' = st s.
 Proof. exact prelude_cadr_spec. Qed.
 Print Assumptions C14_handmodel_cadr.
+
+(* ---- memq memv member assq assv assoc (prelude.scm:159-196; Proofs/PreludeMemProofs.v).
+   member: on a proper list of plain data (the fuel covers the depth of the data and the
+   length of the list) the result is #f and no element is equal? to the key, or it is the
+   i-th tail of the list, the i-th element is equal? to the key and no earlier one is; the
+   heap is unchanged.  This is the statement that was kept OPEN as [prelude_member_stmt]. *)
+Theorem C14_handmodel_member : forall fuel s x l xs e,
+  values_are_refs s -> sym_interned s -> val_ok s x -> val_ok s l -> sp s < scap s ->
+  achain (abs s) (absv s l) xs e -> (forall n, In n xs -> exists k, adatum s n k /\ (2 * k + 2 < fuel)%nat) ->
+  (exists k, adatum s (absv s x) k /\ (2 * k + 2 < fuel)%nat) -> (length xs + 1 < fuel)%nat ->
+  e = AImm VNil ->
+  exists r s', MW.Model.PreludeLists.p_mem fuel (equal_b fuel) [x; l] s = ROk r s' /\ hp s' = hp s /\
+    ((forall n, In n xs -> ~ aequal s n (absv s x)) /\ absv s r = AImm (VBool false) \/
+     exists i, atail (abs s) (absv s l) i (absv s r) /\
+       (exists n, nth_error xs i = Some n /\ aequal s n (absv s x)) /\
+       (forall j n, (j < i)%nat -> nth_error xs j = Some n -> ~ aequal s n (absv s x))).
+Proof. exact prelude_member_spec. Qed.
+Print Assumptions C14_handmodel_member.
+
+(* assoc: the first ELEMENT that is a pair whose car is equal? to the key (elements that are
+   not pairs are skipped, prelude.scm:177-196), or #f; [akey_hit s x n]: n is a pair location
+   whose car is equal? to x *)
+Theorem C14_handmodel_assoc : forall fuel s x al xs e,
+  values_are_refs s -> sym_interned s -> val_ok s x -> val_ok s al -> sp s < scap s ->
+  achain (abs s) (absv s al) xs e ->
+  (forall n p k v, In n xs -> n = ALoc (LPair p) -> a_pair (abs s) p = Some (k, v) ->
+     exists d, adatum s k d /\ (2 * d + 2 < fuel)%nat) ->
+  (exists k, adatum s (absv s x) k /\ (2 * k + 2 < fuel)%nat) -> (length xs + 1 < fuel)%nat ->
+  e = AImm VNil ->
+  exists r s', MW.Model.PreludeLists.p_ass fuel (equal_b fuel) [x; al] s = ROk r s' /\ hp s' = hp s /\
+    ((forall n, In n xs -> ~ akey_hit s (absv s x) n) /\ absv s r = AImm (VBool false) \/
+     exists i n, nth_error xs i = Some n /\ absv s r = n /\ akey_hit s (absv s x) n /\
+       (forall j m, (j < i)%nat -> nth_error xs j = Some m -> ~ akey_hit s (absv s x) m)).
+Proof. exact prelude_assoc_spec. Qed.
+Print Assumptions C14_handmodel_assoc.
+
+(* memq / memv and assq / assv ([eq_b] and [eqv_b] are the same function, predicate.rs:130-149).
+   marwood's eqv? is not R7RS eqv? on every value (documented above: two distinct pairs with
+   identical field cells, two equal strings), so these are stated against the machine's own
+   decision [eqv_true s x a] := "eqv x a answers #t in s" (eqv reads heap and string table
+   only), on the concrete chain of pair cells [pchain] ((car address, cdr address) per pair):
+   the result is the i-th tail / the i-th element for the FIRST i whose car (key) is eqv? to
+   x, or #f when none is; heap and tables unchanged. *)
+Theorem C14_handmodel_memv : forall fuel s x l cells e,
+  values_are_refs s -> sym_interned s -> val_ok s x -> val_ok s l -> sp s < scap s ->
+  pchain (hp s) l cells e -> heap_deref (hp s) e = Ok VNil ->
+  Forall (fun ad => exists k, adatum s (absv s (VPtr (fst ad))) k) cells ->
+  (exists k, adatum s (absv s x) k) -> (length cells + 1 <= fuel)%nat ->
+  exists r s', MW.Model.PreludeLists.p_mem fuel eqv_b [x; l] s = ROk r s' /\ hp s' = hp s /\ st s' = st s /\
+    ((forall ad, In ad cells -> ~ eqv_true s x (VPtr (fst ad))) /\ r = VBool false \/
+     exists i ad, nth_error cells i = Some ad /\ r = tail_at l cells i /\
+       atail (abs s) (absv s l) i (absv s r) /\ eqv_true s x (VPtr (fst ad)) /\
+       (forall j ad', (j < i)%nat -> nth_error cells j = Some ad' -> ~ eqv_true s x (VPtr (fst ad')))).
+Proof. exact prelude_memv_spec. Qed.
+Print Assumptions C14_handmodel_memv.
+
+Theorem C14_handmodel_assv : forall fuel s x al cells e,
+  values_are_refs s -> sym_interned s -> val_ok s x -> val_ok s al -> sp s < scap s ->
+  pchain (hp s) al cells e -> heap_deref (hp s) e = Ok VNil ->
+  (forall ad k v, In ad cells -> heap_get (hp s) (fst ad) = Ok (VPair k v) ->
+     exists d, adatum s (absv s (VPtr k)) d) ->
+  (exists k, adatum s (absv s x) k) -> (length cells + 1 <= fuel)%nat ->
+  exists r s', MW.Model.PreludeLists.p_ass fuel eqv_b [x; al] s = ROk r s' /\ hp s' = hp s /\ st s' = st s /\
+    ((forall ad, In ad cells -> ~ entry_hit s (eqv_true s x) ad) /\ r = VBool false \/
+     exists i ad, nth_error cells i = Some ad /\ r = VPtr (fst ad) /\ entry_hit s (eqv_true s x) ad /\
+       (forall j ad', (j < i)%nat -> nth_error cells j = Some ad' -> ~ entry_hit s (eqv_true s x) ad')).
+Proof. exact prelude_assv_spec. Qed.
+Print Assumptions C14_handmodel_assv.
+Example C14_memq_is_memv : eq_b = eqv_b. Proof. reflexivity. Qed.
+
+(* the generic form behind the four theorems: ANY comparison builtin that decides a predicate
+   P on the element it is called with (and leaves heap and tables alone) makes mem_go return
+   the first tail whose car satisfies P; an improper list without a hit is an error *)
+Theorem C14_handmodel_mem_generic : forall fuel s0 cmp obj (ok P : vcell -> Prop),
+  (forall s a, ok a -> hp s = hp s0 -> st s = st s0 -> sp s < scap s ->
+     exists b s', MW.Model.PreludeLists.callb cmp [a; obj] s = ROk (VBool b) s' /\ hp s' = hp s /\ st s' = st s /\
+                  sp s' < scap s' /\ (b = true <-> P a)) ->
+  forall l cells e, pchain (hp s0) l cells e ->
+  forall s f ce, hp s = hp s0 -> st s = st s0 -> sp s < scap s -> (length cells + 1 <= f)%nat ->
+    Forall (fun ad => ok (VPtr (fst ad))) cells ->
+    heap_deref (hp s0) e = Ok ce ->
+    (exists i, first_hit P cells i /\
+       exists s', MW.Model.PreludeLists.mem_go fuel cmp f obj l s = ROk (tail_at l cells i) s' /\ hp s' = hp s0 /\ st s' = st s0)
+    \/ (no_hit P cells /\
+        if is_nil ce
+        then exists s', MW.Model.PreludeLists.mem_go fuel cmp f obj l s = ROk (VBool false) s' /\ hp s' = hp s0 /\ st s' = st s0
+        else render_fail (MW.Model.PreludeLists.mem_go fuel cmp f obj l s)).
+Proof. exact mem_go_spec. Qed.
+Print Assumptions C14_handmodel_mem_generic.
+
+(* non-vacuity: (member 2 (list 1 2 3)) = (2 3), (memv 3 (list 1 2 3)) = (3), (member 9 ..) = #f,
+   (assoc 2 (list (cons 1 10) (cons 2 20))) = (2 . 20), (assv 5 ..) = #f on the model machine *)
+Definition ex_num (z : Z) : vcell := VNum (Fixnum z).
+Definition ex_show (r : res vcell) : option cell :=
+  match r with
+  | ROk v s => match get_as_cell builtin_name_default (hp s) (st s) 50 v with Ok c => Some c | _ => None end
+  | _ => None
+  end.
+Example C14_member_runs :
+  match MW.Model.PreludeLists.p_list [ex_num 1; ex_num 2; ex_num 3] (vm_empty 64) with
+  | ROk l s1 =>
+      ex_show (MW.Model.PreludeLists.p_mem 50 (equal_b 50) [ex_num 2; l] s1)
+        = Some (new_list [CNum (Fixnum 2); CNum (Fixnum 3)]) /\
+      ex_show (MW.Model.PreludeLists.p_mem 50 eqv_b [ex_num 3; l] s1) = Some (new_list [CNum (Fixnum 3)]) /\
+      ex_show (MW.Model.PreludeLists.p_mem 50 (equal_b 50) [ex_num 9; l] s1) = Some (CBool false)
+  | _ => False
+  end.
+Proof. vm_compute. repeat split. Qed.
+Example C14_assoc_runs :
+  match (dom e1 <- apply_builtin cons_ [ex_num 1; ex_num 10];
+         dom e2 <- apply_builtin cons_ [ex_num 2; ex_num 20];
+         MW.Model.PreludeLists.p_list [e1; e2]) (vm_empty 64) with
+  | ROk al s1 =>
+      ex_show (MW.Model.PreludeLists.p_ass 50 (equal_b 50) [ex_num 2; al] s1)
+        = Some (CPair (CNum (Fixnum 2)) (CNum (Fixnum 20))) /\
+      ex_show (MW.Model.PreludeLists.p_ass 50 eqv_b [ex_num 5; al] s1) = Some (CBool false)
+  | _ => False
+  end.
+Proof. vm_compute. repeat split. Qed.
 
 (* ----------------------------------------------------------------- non-vacuity *)
 (* the hypotheses are satisfiable: the empty machine satisfies the invariant, and the
